@@ -36,10 +36,10 @@ Targets(n, f)   == IF f \in AllScalars THEN {m \in Declaring[f] : IsPrefix(n, m)
 
 (* a valuation maps <<node, field>> to a value token, for the fields of interest F *)
 Pairs(F)        == UNION {{<<n, f>> : n \in Declaring[f]} : f \in F \cap AllScalars}
-SetOp(val, n, f, v) == [p \in DOMAIN val |-> IF p[2] = f /\ p[1] \in Targets(n, f) THEN v ELSE val[p]]
+SetOp(val, n, f, v) == LET T == Targets(n, f) IN [p \in DOMAIN val |-> IF p[2] = f /\ p[1] \in T THEN v ELSE val[p]]
 (* the contract as a predicate over a pre- and a post-valuation *)
 SetReached(new, n, f, v)      == \A m \in Targets(n, f) : <<m, f>> \in DOMAIN new => new[<<m, f>>] = v
-SetFrame(old, new, n, f)      == \A p \in DOMAIN old : (p[2] # f \/ p[1] \notin Targets(n, f)) => new[p] = old[p]
+SetFrame(old, new, n, f)      == LET T == Targets(n, f) IN \A p \in DOMAIN old : (p[2] # f \/ p[1] \notin T) => new[p] = old[p]
 SetPost(old, new, n, f, v)    == DOMAIN new = DOMAIN old /\ SetReached(new, n, f, v) /\ SetFrame(old, new, n, f)
 (* laws (checked by TLC in MC_Render) *)
 Idempotent(val, n, f, v)               == SetOp(SetOp(val, n, f, v), n, f, v) = SetOp(val, n, f, v)
@@ -51,7 +51,7 @@ RootReaches(val, f, v)                 == \A m \in Declaring[f] : <<m, f>> \in D
    changed : [[path, field name], ...]   every (node, public non-group attribute) whose value differs before/after *)
 ValAt(vals, m)  == IF \E i \in DOMAIN vals : vals[i][1] = m THEN (CHOOSE x \in Range(vals) : x[1] = m)[2] ELSE "<absent>"
 Missed(n, f, v, vals)     == {m \in Targets(n, f) : ValAt(vals, m) # v}
-Clobbered(n, f, changed)  == {c \in Range(changed) : ~(c[2] = f /\ c[1] \in Targets(n, f))}
+Clobbered(n, f, changed)  == LET T == Targets(n, f) IN {c \in Range(changed) : ~(c[2] = f /\ c[1] \in T)}
 
 (* =============================== (2) time window ================================= *)
 CONSTANTS TMax          \* largest time step looked at (windows and occupancy probes live in 0..TMax)
